@@ -17,7 +17,7 @@ for p in props:
             planted.append(s)
     extra = f"""
 ADDITIONAL CONSTRAINTS FOR THIS ROUND:
-- Name your output directories /tmp/seed-out/{p}-{tag}-k/ (k = 1..3).
+- Name your output directories /tmp/seed-out/{p}-{tag}-k/ (k = 1..{os.environ.get('SEED_N', '3')}).
 - Do NOT use `git stash` (shared by all worktrees); restore with `git checkout -- . && git clean -fdq`, re-apply from your saved patch file.
 - Never use pkill/killall with a pattern; kill only process ids you started yourself.
 - Scratch copies: /tmp/seed-out/scratch-{p}-{tag}-*, removed when done.
@@ -26,7 +26,7 @@ ADDITIONAL CONSTRAINTS FOR THIS ROUND:
 """ + "\n".join("    * " + s for s in planted) + """
 """ + IDEAS + """
 """
-    txt = subprocess.run(['python3', '/verif/tools/seed_prompt.py', p, '3', extra], capture_output=True, text=True).stdout
+    txt = subprocess.run(['python3', '/verif/tools/seed_prompt.py', p, os.environ.get('SEED_N', '3'), extra], capture_output=True, text=True).stdout
     txt = txt.replace(f'/tmp/seed-out/{p}-k/', f'/tmp/seed-out/{p}-{tag}-k/')
     open(f'{outdir}/{p}.txt', 'w').write(txt)
     print(p, len(planted), 'planted,', len(txt), 'bytes')
